@@ -57,6 +57,14 @@ def perturb(pieces, pert, case):
         ps[i] = type(p).like(p, sample_rate=p.sample_rate * 2)
     elif k == "ratefine":
         ps[i] = type(p).like(p, sample_rate=p.sample_rate * (1 + 2.0 ** -10))
+    elif k == "rateunit":
+        q = p.sample_rate
+        other = {u.mHz: u.Hz, u.Hz: u.kHz, u.kHz: u.MHz, u.MHz: u.kHz, u.GHz: u.MHz}.get(q.unit)
+        if other is None:
+            raise Skip("no neighbouring unit")
+        ps[i] = type(p).like(p, sample_rate=q.value * other)        # the same number, another unit
+    elif k == "align":
+        ps[i] = type(p).like(p, freq_align="bottom" if p.freq_align == "center" else "center")   # same centre, labels move by cbw/2
     elif k == "cls":
         other = {"RadioSignal": pb.IntensitySignal, "IntensitySignal": pb.RadioSignal,
                  "FullStokesSignal": pb.IntensitySignal, "BasebandSignal": pb.RadioSignal,
@@ -87,6 +95,19 @@ def check_case(case, conc, axis_form):
         ps = perturb(pieces, case["pert"], case)
     except Skip:
         return None
+    if case["pert"][0] == "none" and len(ps) > 1 and (len(case["cuts"]) + case["root"]["len"]) % 2 == 0:
+        # the same quantities written in another unit are the same quantities (4 kHz == 4000 Hz)
+        ps = list(ps)
+        p = ps[-1]
+        kw = {}
+        for at in ("sample_rate", "center_freq", "chan_bw"):
+            q = getattr(p, at, None)
+            if q is not None and not (at == "chan_bw" and isinstance(p, pb.BasebandSignal)):
+                q2 = q.to({u.Hz: u.kHz, u.kHz: u.Hz, u.MHz: u.Hz, u.GHz: u.MHz, u.mHz: u.Hz}.get(q.unit, u.Hz))
+                if common.hz(q2) == common.hz(q):
+                    kw[at] = q2
+        if kw:
+            ps[-1] = type(p).like(p, **kw)
     snaps = [common.snapshot(p) for p in ps]
     ax = case["axis"]
     axis = {"time": [0, "time"], "freq": [1, "freq"]}[ax][axis_form]
@@ -98,6 +119,33 @@ def check_case(case, conc, axis_form):
         err = None
     except Exception as e:  # noqa
         r, err = None, e
+    # Concat!Associative on the real code: every grouping into consecutive groups, each joined first, then the
+    # results joined, gives the flat result or the flat refusal
+    if len(ps) == 3:
+        for g in ((2, 1), (1, 2)):
+            grp = [ps[:2], ps[2:]] if g == (2, 1) else [ps[:1], ps[1:]]
+            try:
+                inner = [pb.concatenate(x, axis=axis) if len(x) > 1 else x[0] for x in grp]
+                r2, err2 = pb.concatenate(inner, axis=axis), None
+            except Exception as e:  # noqa
+                r2, err2 = None, e
+            if err is None and err2 is not None:
+                out.append(("C10", "concat:grouping-refused", "%s: grouping %s raised %r while the flat call joins" % (desc, g, err2)))
+            elif err is not None and err2 is None and case["err"]:
+                out.append(("C10", "concat:grouping-joined-bad:%s" % case["pert"][0],
+                            "%s: grouping %s was joined while the pieces must be refused" % (desc, g)))
+            elif err is None and err2 is None:
+                same = (type(r2) is type(r) and r2.shape == r.shape and
+                        np.array_equal(common.materialise(r2), common.materialise(r)) and
+                        common.hz(r2.sample_rate) == common.hz(r.sample_rate) and
+                        (r2.start_time is None) == (r.start_time is None) and
+                        (r.start_time is None or abs(common.time_days(r2.start_time) - common.time_days(r.start_time)) <= 3 * pr.DAYTOL))
+                if same and isinstance(r, pb.RadioSignal):
+                    a, b = common.hz(r.channel_freqs), common.hz(r2.channel_freqs)
+                    sc = max([abs(x) for x in a] + [common.hz(r.chan_bw) * len(a)])
+                    same = len(a) == len(b) and all(pr.close(x, y, sc) for x, y in zip(a, b))
+                if not same:
+                    out.append(("C10", "concat:grouping-differs", "%s: grouping %s gives another result than the flat call" % (desc, g)))
     for p, sn in zip(ps, snaps):
         if common.snap_diff(sn, common.snapshot(p)):
             out.append(("C14", "concat:input-modified", "input piece modified by " + desc))
